@@ -536,6 +536,8 @@ fn run_flow(ws: &[&str]) -> String {
     }
 }
 
+static BUILT_TARGET: std::sync::Mutex<Option<String>> = std::sync::Mutex::new(None);
+
 #[derive(Debug)]
 struct AdErr(String);
 impl std::fmt::Display for AdErr {
@@ -634,6 +636,8 @@ fn run_same(ws: &[&str]) -> String {
         let failfirst = flags.iter().any(|f| f == "failfirst");
         let mem_calls = std::sync::atomic::AtomicU32::new(0);
         let in_memory = |_r: HttpRequest| -> Result<HttpResponse, AdErr> {
+            // (the target of the request AS THE LIBRARY BUILT IT: what the adapters put on the wire must be exactly this)
+            *BUILT_TARGET.lock().unwrap() = _r.uri().path_and_query().map(|p| p.as_str().to_string());
             let nth = mem_calls.fetch_add(1, std::sync::atomic::Ordering::SeqCst);
             if fault.is_some() || (failfirst && nth == 0) {
                 return Err(AdErr("connection fault".into()));
@@ -752,6 +756,12 @@ fn run_same(ws: &[&str]) -> String {
     if matches!(ws[1], "code" | "refresh" | "devpoll" | "devpoll_async") {
         if let Some(bad) = seen.iter().find(|s| s.target != "/token?tenant=a%20b" || s.method != "POST") {
             return format!("target-on-the-wire-differs {} {}", bad.method, tok_bytes(bad.target.as_bytes()));
+        }
+        let built = BUILT_TARGET.lock().unwrap().clone();
+        if let (Some(b), Some(s)) = (built, seen.first()) {
+            if b != s.target {
+                return format!("target-on-the-wire-is-not-the-target-the-library-built built={} wire={}", tok_bytes(b.as_bytes()), tok_bytes(s.target.as_bytes()));
+            }
         }
     }
     match out {
